@@ -91,6 +91,12 @@ def check_dist(d, ref, stats, rnd, key_seed):
     if kind == "det":
         if (onp.abs(v - ref["loc"]) > 1e-7 * max(1, abs(ref["loc"]))).any():
             V.append(dict(clause="deterministic_quantile_not_loc", v=v.tolist(), loc=ref["loc"]))
+        # a constant has the same quantile at EVERY level, including the extreme levels 0 and 1 and array-valued levels
+        ve = [float(d.quantile(0.0)), float(d.quantile(1.0))] + onp.asarray(d.quantile(onp.array([0.0, 0.3, 1.0]))).ravel().tolist() + \
+            [float(type(d).quantile_pure(d, 1.0))]
+        stats["quantiles_checked"] += len(ve)
+        if not all(abs(x - ref["loc"]) <= 1e-7 * max(1, abs(ref["loc"])) for x in ve):
+            V.append(dict(clause="deterministic_quantile_not_loc_at_extreme_levels", v=ve, loc=ref["loc"]))
     elif kind == "norm":
         if ref["scale"] > 0:
             cdf = norm.cdf((v - ref["loc"]) / ref["scale"])
@@ -115,6 +121,18 @@ def check_dist(d, ref, stats, rnd, key_seed):
         dval = ref["min"] + ref["alpha"] * (ref["max"] - ref["min"])
         if (onp.abs(v - dval) > 1e-6).any():
             V.append(dict(clause="trainable_quantile_not_delay", v=v.tolist(), delay=dval))
+        # requested delays outside [min, max] saturate: alpha in [0,1], samples/mean/quantile inside [min, max] (never negative)
+        span = ref["max"] - ref["min"]
+        for req in (ref["min"] - 0.5 * span - 1e-3, -0.003, ref["min"], ref["max"], ref["max"] + 0.7 * span):
+            a = float(d.get_alpha(req))
+            dd = d.replace(alpha=d.get_alpha(req))
+            smp = onp.asarray(dd.sample((4,))[1], float)
+            vals = [float(dd.quantile(0.5)), float(dd.mean())] + smp.tolist()
+            stats["saturation_checked"] += 1
+            exp = min(max(req, ref["min"]), ref["max"])
+            if not (0.0 <= a <= 1.0) or any(abs(x - exp) > 1e-6 + 1e-5 * abs(exp) for x in vals) or min(vals) < 0:
+                V.append(dict(clause="trainable_delay_outside_range_does_not_saturate", requested=req, alpha=a, values=vals[:3], expected=exp, min=ref["min"], max=ref["max"]))
+                break
     return V, None
 
 
